@@ -194,6 +194,11 @@ def gen_addr(c):
         body = [host]
         for q in range(v["n"]):
             body.append("{ const stensor<1u, double> r = X(%d); c17::elems(e.read, r); }" % q)
+        # the same array of views on a const host (a separate overload)
+        body.append("{ const auto& ch_ = h; const auto XC = map<%d, stensor<1u, double>, %d, %d>(ch_);" % (v["n"], v["i"], v["st"]))
+        for q in range(v["n"]):
+            body.append("  { const stensor<1u, double> r = XC(%d); c17::elems(e.readc, r); }" % q)
+        body.append("}")
         for q in range(v["n"]):
             body.append("{ stensor<1u, double> w; c17::iota(w, %d.); X(%d) = w; }" % (1001 + 3 * q, q))
         body.append("c17::store(h, %s);" % p)
